@@ -1685,6 +1685,10 @@ class Scheduler:
                 return None
 
         pending_job = self._pending_jobs.get((job.eval_hash, job.context_hash))
+        if pending_job and job.recording_provenance() and not pending_job.recording_provenance():
+            # A job that does not record provenance never gets a call node, so it has no
+            # call_hash that a provenance-recording duplicate could share.
+            return None
         if pending_job:
             job.collapse(pending_job)
             return pending_job
